@@ -124,23 +124,16 @@ structure RowKept (o : OverlapResult) (f : Fragment) (xs : Int) (L : List Row) (
   pos : o.start + rowsLength L = xs + 1 + dl
   posR : o.stop - rowsLength R = xs + f.length - dr
 
-/-- **row level.**  `src = X ++ f :: Y`; `x` is a base of the contig row `f`, inside the lookup span and inside the core. -/
-theorem core_row_kept {src : List Row} {M s0 e0 : Int} {p : Fragment} {o : OverlapResult} (hlen : NonNeg src)
-    (hk : KInv src M s0 e0 p o) {X Y : List Row} {f : Fragment} (hs : src = X ++ .frag f :: Y) {x : Int}
-    (hx1 : rowsLength X < x) (hx2 : x ≤ rowsLength X + f.length) (h0 : s0 ≤ x) (h1 : x ≤ e0)
-    (hc1 : p.start + M ≤ x) (hc2 : x ≤ p.stop - M) :
+/-- **row level.**  `src = X ++ f :: Y`; `x` is a base of the contig row `f` that lies inside `[o.start, o.stop]`. -/
+theorem row_kept_at {src : List Row} {o : OverlapResult} (hlen : NonNeg src) (hI : Inv src o) (hedge : EdgeOK src o)
+    {X Y : List Row} {f : Fragment} (hs : src = X ++ .frag f :: Y) {x : Int}
+    (hx1 : rowsLength X < x) (hx2 : x ≤ rowsLength X + f.length) (hlo : o.start ≤ x) (hhi : x ≤ o.stop) :
     ∃ L r R dl dr, RowKept o f (rowsLength X) L r R dl dr := by
-  have hxpos : 1 ≤ x := by
-    have := rowsLength_nonneg (hlen.of_eq_append3 hs).1; omega
-  have hcontig : ContigAt src x := ⟨hxpos, f, rowAt_frag hs hlen hx1 hx2⟩
-  have hb := hk.bait
-  obtain ⟨hlo, hhi⟩ := hk.core x h0 h1 hcontig (by rw [hb]; exact hc1) (by rw [hb]; exact hc2)
   have hfl : (Row.frag f).length = f.length := rfl
-  cases hk.inv.content with
+  cases hI.content with
   | empty hr he => omega
   | one A B s r dl dr hs' hr hsh d0 d1 hst hen =>
     obtain ⟨rfl, rfl, rfl⟩ := pos_unique hlen hs hs' hx1 hx2 (by omega) (by omega)
-    have hedge := hk.edge
     rcases hedge with he | ⟨eL, eR⟩
     · rw [hr] at he; cases he
     · refine ⟨[], r, [], dl, dr, ⟨by rw [hr]; rfl, hsh, d0, d1, fun h => absurd rfl h, fun h => absurd rfl h,
@@ -156,7 +149,6 @@ theorem core_row_kept {src : List Row} {M s0 e0 : Int} {p : Fragment} {o : Overl
   | many A B mid s0' s1' r0 r1 dl dr hs' hr hs0 hs1 d0 d1 hst hen =>
     have hl0 := hs0.length
     have hl1 := hs1.length
-    have hedge := hk.edge
     have hs'' : src = A ++ s0' :: (mid ++ s1' :: B) := by rw [hs']; simp
     obtain ⟨nA, n0, nrest⟩ := hlen.of_eq_append3 hs''
     have nmid : NonNeg mid := nrest.append_left
@@ -200,5 +192,18 @@ theorem core_row_kept {src : List Row} {M s0 e0 : Int} {p : Fragment} {o : Overl
           · exact eR
         · rw [rowsLength_cons, rowsLength_append, rowsLength_cons]; omega
         · rw [rowsLength_nil, rowsLength_append, rowsLength_cons]; omega
+
+/-- `x` a base of the contig row `f`, inside the lookup span and inside the core -/
+theorem core_row_kept {src : List Row} {M s0 e0 : Int} {p : Fragment} {o : OverlapResult} (hlen : NonNeg src)
+    (hk : KInv src M s0 e0 p o) {X Y : List Row} {f : Fragment} (hs : src = X ++ .frag f :: Y) {x : Int}
+    (hx1 : rowsLength X < x) (hx2 : x ≤ rowsLength X + f.length) (h0 : s0 ≤ x) (h1 : x ≤ e0)
+    (hc1 : p.start + M ≤ x) (hc2 : x ≤ p.stop - M) :
+    ∃ L r R dl dr, RowKept o f (rowsLength X) L r R dl dr := by
+  have hxpos : 1 ≤ x := by
+    have := rowsLength_nonneg (hlen.of_eq_append3 hs).1; omega
+  have hcontig : ContigAt src x := ⟨hxpos, f, rowAt_frag hs hlen hx1 hx2⟩
+  have hb := hk.bait
+  obtain ⟨hlo, hhi⟩ := hk.core x h0 h1 hcontig (by rw [hb]; exact hc1) (by rw [hb]; exact hc2)
+  exact row_kept_at hlen hk.inv hk.edge hs hx1 hx2 hlo hhi
 
 end AgpTpf.C02
